@@ -1,0 +1,326 @@
+//go:build verif
+
+package db
+
+// Contracts for property C14 (attachments stay intact and live exactly as long as a revision needs them).
+// Comment-only; read by /verif/engine. Trusted vocabulary: /verif/trusted/c14_attachments.spec.
+
+//@ props C14
+
+// ---- digests and storage keys ----
+
+// Sha1DigestKey is TRUSTED: "sha1-" + base64(SHA-1 of the bytes). It is a function of the bytes only and writes
+// nothing but its private hash state. What is assumed: its result is sha1Digest(data) (an uninterpreted function, see
+// the spec file), i.e. two calls on the same (unmodified) slice give the same digest. Nothing about SHA-1 is assumed.
+//@ func Sha1DigestKey
+//@   trusted
+//@   ensures[digest] result == sha1Digest(data)
+
+// MakeAttachmentKey is TRUSTED: version 2 -> "_sync:att2:" + base64(sha256(docID)) + ":" + digest, otherwise
+// "_sync:att:" + digest. It is a function of its arguments only and writes nothing but its private hash state.
+// (Not verifiable: the engine models []byte(docID) as a fresh slice unrelated to docID, so the sha256 of the
+// document id cannot be named.) What is assumed: its result is attKey(version, docID, digest).
+//@ func MakeAttachmentKey
+//@   trusted
+//@   ensures[key] result == attKey(version, docID, digest)
+
+// ProveAttachment is TRUSTED: "sha1-" + base64(SHA-1(byte(len(nonce)), nonce, data)); a function of the bytes of its
+// two arguments only, writes nothing but its private hash state. What is assumed: its result is attProof(data, nonce).
+//@ func ProveAttachment
+//@   trusted
+//@   ensures[proof] proof == attProof(attachmentData, nonce)
+
+// The proof a peer has to match is computed over the attachment body we hold and the nonce that is sent with the
+// challenge (not over anything the peer supplied).
+//@ func GenerateProofOfAttachment
+//@   modifies *
+//@   ensures[proof] isNilErr(err) ==> nonce != nil && len(nonce) == 20 && proof == attProof(attachmentData, nonce)
+//@   ensures[error] !isNilErr(err) ==> nonce == nil && proof == ""
+
+// the "ver" property of an attachment's metadata: absent = version 1, otherwise its integer value
+//@ pred attVer(m map[string]any) int
+//@   is ite("ver" in m, int(toI64(m["ver"])), AttVersion1)
+
+//@ func GetAttachmentVersion
+//@   safety on
+//@   ensures[version] result0 == attVer(meta)
+//@   ensures[ok]      result1 <==> (!("ver" in meta) || toI64ok(meta["ver"]))
+
+// ---- the storage keys an attachments map refers to ----
+
+// An entry of an AttachmentsMeta map (`_attachments` of a revision) is a map[string]any with a string "digest":
+// attMeta(v) is that map, attDigest(v) its digest (meaningful when the dynamic types are as expected, which
+// retrieveV2Attachments checks: it fails with ErrAttachmentMeta otherwise).
+//@ pred attMeta(v any) map[string]any
+//@   is unbox(v, map[string]any)
+//@ pred attDigest(v any) string
+//@   is unbox(attMeta(v)["digest"], string)
+//@ pred isV2Att(v any) bool
+//@   is attVer(attMeta(v)) == AttVersion2
+// the storage key of a version-2 attachment entry v of document docID
+//@ pred attEntryKey(docID string, v any) string
+//@   is attKey(AttVersion2, docID, attDigest(v))
+
+// retrieveV2Attachments: on success the result holds the storage key of every version-2 entry of the map
+// ([complete]) and nothing else ([sound]); on error no map is returned. The input is only read.
+//@ func retrieveV2Attachments
+//@   safety on
+//@   ensures[error]    !isNilErr(result1) ==> result0 == nil
+//@   ensures[fresh]    isNilErr(result1) ==> result0 != nil && !old(allocated(now(result0)))
+//@   ensures[complete] isNilErr(result1) ==> (forall n string :: {n in docAttachments} (n in docAttachments) && isV2Att(docAttachments[n]) ==> (attEntryKey(docID, docAttachments[n]) in result0))
+//@   ensures[sound]    isNilErr(result1) ==> (forall k string :: {k in result0} (k in result0) ==> (exists n string :: {n in docAttachments} (n in docAttachments) && isV2Att(docAttachments[n]) && k == attEntryKey(docID, docAttachments[n])))
+//@   loop 1 invariant[fresh]    attachments != nil && !old(allocated(now(attachments)))
+//@   loop 1 invariant[complete] forall n string :: {n in #visited} (n in #visited) && isV2Att(docAttachments[n]) ==> (attEntryKey(docID, docAttachments[n]) in attachments)
+//@   loop 1 invariant[visited]  forall n string :: {n in #visited} (n in #visited) ==> (n in docAttachments)
+//@   loop 1 invariant[sound]    forall k string :: {k in attachments} (k in attachments) ==> (exists n string :: {n in #visited} (n in #visited) && isV2Att(docAttachments[n]) && k == attEntryKey(docID, docAttachments[n]))
+
+// ---- the storage keys the leaf revisions of a document refer to ----
+
+//@ func Document.Attachments
+//@   pure
+
+// RevInfo.c14AttKeys: the set of storage keys of the version-2 attachments that the revision refers to, i.e. the
+// keys of the `_attachments` metadata that getRevision reports for it (the document's attachment metadata for the
+// current revision, merged with the `_attachments` stored inline in the revision's body). It is a NAME for that
+// set (nothing but the trusted contract of getRevision mentions it), so that "the keys of leaf l" can be denoted
+// after the freshly parsed metadata map has gone out of scope.
+//@ ghost field RevInfo.c14AttKeys set[string]
+
+// getRevision is TRUSTED (storage read of a backup body, JSON parsing). Frame: it caches a lazily loaded
+// revision body in the tree node (RevTree.getRevisionBody: info.Body = loader(...)) and the marshalled body of the
+// current revision in doc._rawBody (Document.BodyBytes); the attachments it returns are nil, the document's own map,
+// or a fresh map (mergeAttachments); nothing else that existed before the call is written.
+// [error]: no attachments are returned with an error (every error return is `nil, nil, nil, err`).
+// [refers] / [reported]: DEFINITION of the ghost name c14AttKeys (see above): exactly the version-2 keys of the
+// returned attachments metadata.
+//@ func DatabaseCollection.getRevision
+//@   trusted
+//@   modifies RevInfo.Body, doc._rawBody
+//@   ensures[error]    !isNilErr(err) ==> attachments == nil
+//@   ensures[refers]   isNilErr(err) && (revid in doc.History) ==> (forall k string :: {k in doc.History[revid].c14AttKeys} (k in doc.History[revid].c14AttKeys) ==> (exists n string :: {n in attachments} (n in attachments) && isV2Att(attachments[n]) && k == attEntryKey(doc.ID, attachments[n])))
+//@   ensures[reported] isNilErr(err) && (revid in doc.History) ==> (forall n string :: {n in attachments} (n in attachments) && isV2Att(attachments[n]) ==> (attEntryKey(doc.ID, attachments[n]) in doc.History[revid].c14AttKeys))
+
+// the filter handed to GetLeavesFiltered: leaves that carry attachments in their stored body, except the
+// revision being written (its attachments are the document's attachment metadata, handled separately)
+//@ func getAttachmentIDsForLeafRevisions$1
+//@   safety on
+//@   requires doc != nil && (revId in doc.History) && doc.History[revId] != nil
+//@   ensures[filter] result <==> doc.History[revId].HasAttachments && revId != newRevID
+
+// every version-2 entry of the attachments map atts of document docID has its storage key in the map keysMap
+//@ pred attKeysIn(docID string, atts AttachmentsMeta, keysMap map[string][]string) bool
+//@   is forall n string :: {n in atts} (n in atts) && isV2Att(atts[n]) ==> (attEntryKey(docID, atts[n]) in keysMap)
+// every key the revision node refers to is in keysMap
+//@ pred revKeysIn(info *RevInfo, keysMap map[string][]string) bool
+//@   is forall k string :: {k in info.c14AttKeys} (k in info.c14AttKeys) ==> (k in keysMap)
+
+// getAttachmentIDsForLeafRevisions: the storage keys that must be kept for the document.
+//   [current]  on success the result holds the key of every version-2 attachment of the document's own attachment
+//              metadata (the attachments of the revision being written, or of the current revision);
+//   [leaves]   and every key that a listed leaf refers to, for EVERY revision in the list GetLeavesFiltered returned
+//              (callres(GetLeavesFiltered, 1, 0) = the local documentLeafRevisions): no listed leaf is skipped;
+//   [error]    if the metadata of the document or of any listed leaf cannot be read, NO set is returned (the callers
+//              then skip the removal of obsolete attachments altogether).
+// Not proved here (higher-order gap, as for RevTree.GetLeaves in zz_verif_c04.go): that the list holds every leaf l
+// with HasAttachments && l != newRevID. GetLeavesFiltered is verified against an abstract filter (every accepted leaf
+// is in the result), the filter closure is verified above ([filter]); the instantiation of the one with the other
+// is assumed.
+// The ghost preconditions (no leaf recorded as visited / accepted) are those of GetLeavesFiltered's contract.
+//@ func getAttachmentIDsForLeafRevisions
+//@   safety on
+//@   requires db != nil && doc != nil && treeWF(doc.History) && noLeafVisited(doc.History)
+//@   requires[none-accepted] forall l string :: {l in leafAccepted} leafOf(doc.History, l) ==> !(l in leafAccepted)
+//@   modifies leafVisited, leafAccepted, RevInfo.Body, doc._rawBody
+//@   ensures[error]   !isNilErr(result1) ==> result0 == nil
+//@   ensures[fresh]   isNilErr(result1) ==> result0 != nil && !old(allocated(now(result0)))
+//@   ensures[current] isNilErr(result1) ==> attKeysIn(doc.ID, doc.Attachments(), result0)
+//@   ensures[listed]  isNilErr(result1) ==> called(GetLeavesFiltered, 1)
+//@   ensures[leaves]  isNilErr(result1) ==> (forall i int :: {callres(GetLeavesFiltered, 1, 0)[i]} 0 <= i && i < len(callres(GetLeavesFiltered, 1, 0)) && (callres(GetLeavesFiltered, 1, 0)[i] in doc.History) ==> revKeysIn(doc.History[callres(GetLeavesFiltered, 1, 0)[i]], result0))
+//@   loop 1 invariant[fresh]   leafAttachments != nil && !old(allocated(now(leafAttachments)))
+//@   loop 1 invariant[current] attKeysIn(doc.ID, doc.Attachments(), leafAttachments)
+//@   loop 1 invariant[leaves]  forall i int :: {documentLeafRevisions[i]} 0 <= i && i <= #index && (documentLeafRevisions[i] in doc.History) ==> revKeysIn(doc.History[documentLeafRevisions[i]], leafAttachments)
+
+// ---- the replication gate: the allow-list of a connection ----
+// (The gate itself -- handleGetAttachment reads an attachment only when the allow-list entry of (docID, digest) has
+// a positive counter -- is under contract in zz_verif_c02.go: blipHandler.handleGetAttachment, allowedAttachment,
+// allowedAttachmentKey.)
+
+// the allow-list counter of key k: how many revisions that refer to it are currently being sent (0 = not listed)
+//@ pred allowCount(bsc *BlipSyncContext, k string) int
+//@   is ite(k in bsc.allowedAttachments, bsc.allowedAttachments[k].counter, 0)
+// representation invariant of the allow-list: an entry exists only while its counter is positive
+//@ pred allowWF(bsc *BlipSyncContext) bool
+//@   is forall k string :: {k in bsc.allowedAttachments} (k in bsc.allowedAttachments) ==> bsc.allowedAttachments[k].counter >= 1
+// the allow-list key of the i-th attachment of the list
+//@ pred allowKeyAt(docID string, attMeta []AttachmentStorageMeta, proto CBMobileSubprotocolVersion, i int) string
+//@   is allowedAttachmentKey(docID, attMeta[i].digest, proto)
+// no key other than those of the list is touched
+//@ pred allowOthersKept(bsc *BlipSyncContext, docID string, attMeta []AttachmentStorageMeta, proto CBMobileSubprotocolVersion, upto int) bool
+//@   is forall k string :: {k in bsc.allowedAttachments} {bsc.allowedAttachments[k]} (forall i int :: {attMeta[i]} 0 <= i && i <= upto ==> allowKeyAt(docID, attMeta, proto, i) != k) ==> ((k in bsc.allowedAttachments) <==> old(k in bsc.allowedAttachments)) && bsc.allowedAttachments[k] == old(bsc.allowedAttachments[k])
+//@ pred allowKeysDistinct(docID string, attMeta []AttachmentStorageMeta, proto CBMobileSubprotocolVersion) bool
+//@   is forall i int, j int :: {attMeta[i], attMeta[j]} 0 <= i && i < j && j < len(attMeta) ==> allowKeyAt(docID, attMeta, proto, i) != allowKeyAt(docID, attMeta, proto, j)
+
+// addAllowedAttachments (a revision with these attachments is about to be sent): every listed key gets a strictly
+// larger counter (so it is positive: the client may fetch it), no counter decreases, no other key is touched, and
+// when the listed keys are pairwise different each counter grows by exactly one.
+//@ func BlipSyncContext.addAllowedAttachments
+//@   safety on
+//@   requires bsc != nil && allowWF(bsc)
+//@   modifies bsc.allowedAttachments, elems(bsc.allowedAttachments)
+//@   ensures[wf]      allowWF(bsc)
+//@   ensures[others]  allowOthersKept(bsc, docID, attMeta, activeSubprotocol, len(attMeta) - 1)
+//@   ensures[grows]   forall k string :: {k in bsc.allowedAttachments} {bsc.allowedAttachments[k]} allowCount(bsc, k) >= old(allowCount(bsc, k))
+//@   ensures[listed]  forall i int :: {attMeta[i]} 0 <= i && i < len(attMeta) ==> allowCount(bsc, allowKeyAt(docID, attMeta, activeSubprotocol, i)) >= old(allowCount(bsc, allowKeyAt(docID, attMeta, activeSubprotocol, i))) + 1
+//@   ensures[exact]   allowKeysDistinct(docID, attMeta, activeSubprotocol) ==> (forall i int :: {attMeta[i]} 0 <= i && i < len(attMeta) ==> allowCount(bsc, allowKeyAt(docID, attMeta, activeSubprotocol, i)) == old(allowCount(bsc, allowKeyAt(docID, attMeta, activeSubprotocol, i))) + 1)
+//@   loop 1 invariant[map]     bsc.allowedAttachments != nil && (bsc.allowedAttachments == old(bsc.allowedAttachments) || (old(bsc.allowedAttachments) == nil && !old(allocated(now(bsc.allowedAttachments)))))
+//@   loop 1 invariant[wf]      allowWF(bsc)
+//@   loop 1 invariant[others]  allowOthersKept(bsc, docID, attMeta, activeSubprotocol, #index)
+//@   loop 1 invariant[grows]   forall k string :: {k in bsc.allowedAttachments} {bsc.allowedAttachments[k]} allowCount(bsc, k) >= old(allowCount(bsc, k))
+//@   loop 1 invariant[listed]  forall i int :: {attMeta[i]} 0 <= i && i <= #index ==> allowCount(bsc, allowKeyAt(docID, attMeta, activeSubprotocol, i)) >= old(allowCount(bsc, allowKeyAt(docID, attMeta, activeSubprotocol, i))) + 1
+//@   loop 1 invariant[exact]   allowKeysDistinct(docID, attMeta, activeSubprotocol) ==> (forall i int :: {attMeta[i]} 0 <= i && i <= #index ==> allowCount(bsc, allowKeyAt(docID, attMeta, activeSubprotocol, i)) == old(allowCount(bsc, allowKeyAt(docID, attMeta, activeSubprotocol, i))) + 1)
+//@   loop 1 invariant[idx]     #index < len(attMeta)
+
+// removeAllowedAttachments (the revision has been sent, or sending it failed): every listed key loses one count, or
+// its entry if that was the last one (so the client can no longer fetch it unless another revision in flight refers to
+// it); no counter grows, no other key is touched; with pairwise different keys each counter drops by exactly one
+// (never below zero). Together with [exact] of addAllowedAttachments: an add followed by the matching remove
+// restores the counters, i.e. a counter is the number of adds minus the number of removes of its key.
+//@ func BlipSyncContext.removeAllowedAttachments
+//@   safety on
+//@   requires bsc != nil && allowWF(bsc)
+//@   modifies elems(bsc.allowedAttachments)
+//@   ensures[wf]      allowWF(bsc)
+//@   ensures[others]  allowOthersKept(bsc, docID, attMeta, activeSubprotocol, len(attMeta) - 1)
+//@   ensures[shrinks] forall k string :: {k in bsc.allowedAttachments} {bsc.allowedAttachments[k]} allowCount(bsc, k) <= old(allowCount(bsc, k))
+//@   ensures[listed]  forall i int :: {attMeta[i]} 0 <= i && i < len(attMeta) ==> allowCount(bsc, allowKeyAt(docID, attMeta, activeSubprotocol, i)) <= max(old(allowCount(bsc, allowKeyAt(docID, attMeta, activeSubprotocol, i))) - 1, 0)
+//@   ensures[exact]   allowKeysDistinct(docID, attMeta, activeSubprotocol) ==> (forall i int :: {attMeta[i]} 0 <= i && i < len(attMeta) ==> allowCount(bsc, allowKeyAt(docID, attMeta, activeSubprotocol, i)) == max(old(allowCount(bsc, allowKeyAt(docID, attMeta, activeSubprotocol, i))) - 1, 0))
+//@   loop 1 invariant[idx]     #index < len(attMeta)
+//@   loop 1 invariant[wf]      allowWF(bsc)
+//@   loop 1 invariant[others]  allowOthersKept(bsc, docID, attMeta, activeSubprotocol, #index)
+//@   loop 1 invariant[shrinks] forall k string :: {k in bsc.allowedAttachments} {bsc.allowedAttachments[k]} allowCount(bsc, k) <= old(allowCount(bsc, k))
+//@   loop 1 invariant[listed]  forall i int :: {attMeta[i]} 0 <= i && i <= #index ==> allowCount(bsc, allowKeyAt(docID, attMeta, activeSubprotocol, i)) <= max(old(allowCount(bsc, allowKeyAt(docID, attMeta, activeSubprotocol, i))) - 1, 0)
+//@   loop 1 invariant[exact]   allowKeysDistinct(docID, attMeta, activeSubprotocol) ==> (forall i int :: {attMeta[i]} 0 <= i && i <= #index ==> allowCount(bsc, allowKeyAt(docID, attMeta, activeSubprotocol, i)) == max(old(allowCount(bsc, allowKeyAt(docID, attMeta, activeSubprotocol, i))) - 1, 0))
+
+// ---- digest integrity when attachment bodies are stored ----
+
+// retrieveAncestorAttachments is TRUSTED (thin frame contract): it loads the body of the parent revision or of an
+// available ancestor (getRevision: caches RevInfo.Body and doc._rawBody) or unmarshals the current body
+// (Document.Body: fills doc._body with a fresh map); the map it returns is the ancestor's attachment metadata or a
+// fresh map. No map[string]any that existed before the call is written. The result is unspecified.
+//@ func DatabaseCollectionWithUser.retrieveAncestorAttachments
+//@   trusted
+//@   modifies RevInfo.Body, doc._rawBody, doc._body
+
+// DecodeAttachment: a []byte is returned as it is, a string is base64-decoded into a fresh slice, anything else is
+// an error. Thin (frame only): it writes nothing that existed before the call.
+//@ func DecodeAttachment
+//@   safety on
+
+// one entry (key -> ua) of the map storeAttachments hands to setAttachments, against the metadata map metas that is
+// persisted with the revision: the storage key is derived from the SHA-1 digest of exactly the bytes that will be
+// stored, and the metadata entry of the attachment's name is a stub that advertises that same digest and the
+// length of those bytes (as "length", or as "encoded_length" when the client declared an encoding).
+//@ pred storedAttOK(docID string, key string, ua updatedAttachment, metas AttachmentsMeta) bool
+//@   is key == attKey(AttVersion2, docID, sha1Digest(ua.body)) && (ua.name in metas) && attMeta(metas[ua.name]) != nil &&
+//@      dynType(attMeta(metas[ua.name])["digest"]) == typeTag(string) && attDigest(metas[ua.name]) == sha1Digest(ua.body) &&
+//@      attMeta(metas[ua.name])["stub"] == box(true) && !("data" in attMeta(metas[ua.name])) &&
+//@      ite("encoding" in attMeta(metas[ua.name]),
+//@          attMeta(metas[ua.name])["encoded_length"] == box(len(ua.body)),
+//@          attMeta(metas[ua.name])["length"] == box(len(ua.body)))
+
+// the metadata entry came with an inline body ("data" present and not null)
+//@ pred attCarriesData(v any) bool
+//@   is attMeta(v) != nil && attMeta(v)["data"] != nil
+
+// storeAttachments: [digest] every body it returns for storage is keyed by its own digest and advertised with that
+// digest and its own length in the metadata (see storedAttOK); [stored] every entry that came with an inline body is
+// replaced by an entry whose key is among the bodies returned for storage; [error] on error nothing is returned.
+//@ func DatabaseCollectionWithUser.storeAttachments
+//@   requires db != nil && doc != nil
+//@   modifies elems(newAttachmentsMeta), RevInfo.Body, doc._rawBody, doc._body
+//@   ensures[none]   old(len(newAttachmentsMeta)) == 0 ==> result0 == nil && isNilErr(result1)
+//@   ensures[error]  !isNilErr(result1) ==> result0 == nil
+//@   ensures[digest] isNilErr(result1) ==> (forall key string :: {key in result0} (key in result0) ==> storedAttOK(doc.ID, key, result0[key], newAttachmentsMeta))
+//@   requires[meta-tree] forall n string :: {n in newAttachmentsMeta} (n in newAttachmentsMeta) ==> attMeta(newAttachmentsMeta[n]) != newAttachmentsMeta && (attMeta(newAttachmentsMeta[n]) == nil || allocated(attMeta(newAttachmentsMeta[n])))   // the entries are maps of their own (a decoded JSON object is a tree), not the outer map itself
+//@   ensures[stored] isNilErr(result1) ==> (forall n string :: {n in newAttachmentsMeta} old((n in newAttachmentsMeta) && attCarriesData(newAttachmentsMeta[n])) ==> (attEntryKey(doc.ID, newAttachmentsMeta[n]) in result0))
+//@   loop 1 invariant[untouched] forall n string :: {n in newAttachmentsMeta} {newAttachmentsMeta[n]} !(n in #visited) ==> ((n in newAttachmentsMeta) <==> old(n in newAttachmentsMeta)) && newAttachmentsMeta[n] == old(newAttachmentsMeta[n])
+//@   loop 1 invariant[inner]   forall m map[string]any, k string :: {k in m} {m[k]} old(allocated(m)) && m != newAttachmentsMeta ==> ((k in m) <==> old(k in m)) && m[k] == old(m[k])
+//@   loop 1 invariant[stored]  forall n string :: {n in #visited} (n in #visited) && old((n in newAttachmentsMeta) && attCarriesData(newAttachmentsMeta[n])) ==> (attEntryKey(doc.ID, newAttachmentsMeta[n]) in newAttachments) && !old(allocated(now(attMeta(newAttachmentsMeta[n])))) && allocated(attMeta(newAttachmentsMeta[n]))
+//@   loop 1 invariant[fresh]  newAttachments != nil && !old(allocated(now(newAttachments)))
+//@   loop 1 invariant[digest] forall key string :: {key in newAttachments} (key in newAttachments) ==> storedAttOK(doc.ID, key, newAttachments[key], newAttachmentsMeta) && (newAttachments[key].name in #visited) && !old(allocated(now(attMeta(newAttachmentsMeta[newAttachments[key].name])))) && allocated(attMeta(newAttachmentsMeta[newAttachments[key].name]))
+
+// setAttachments / setAttachment / addAttachments are under contract in zz_verif_c11.go (path contracts: a failed
+// AddRaw surfaces). The C14 clauses for setAttachments (each body is written under the key it was filed under,
+// exactly the bytes of the entry; an oversize body is never written) are proposed for that contract in the C14 report.
+
+// ---- attachment bodies received from a replication peer ----
+
+// sendGetAttachment asks the peer for the body of an attachment a pushed revision refers to. A body is accepted
+// (returned without error, then stored by storeAttachments under the key of its own digest) only if it matches what the
+// revision advertises: its SHA-1 digest is the digest of the metadata entry ([digest]) and its length is the
+// "length" of the entry ([length], [advertised-length]: the number compared is ToInt64 of meta["length"]).
+// (`result0 != nil`: the error paths return a nil body together with a package-level sentinel error variable, whose
+// value the verifier does not know to be non-nil after the uncontracted BLIP calls.)
+//@ func blipHandler.sendGetAttachment
+//@   requires bh != nil && bh.BlipSyncContext != nil
+//@   modifies *
+//@   before[advertised-length] call ToInt64#1 ("length" in meta) && $0 == meta["length"]
+//@   ensures[error]  !isNilErr(result1) ==> result0 == nil
+//@   ensures[digest] isNilErr(result1) && result0 != nil ==> sha1Digest(result0) == digest
+//@   ensures[length] isNilErr(result1) && result0 != nil ==> called(ToInt64, 1) && callres(ToInt64, 1, 1) && len(result0) == int(callres(ToInt64, 1, 0))
+
+// ---- the attachment metadata of the document when the written revision does not win ----
+
+// The document's attachment metadata (doc.Attachments(), persisted as _globalSync.attachments_meta) is what
+// getRevision reports as the attachments of the CURRENT revision, and what getAttachmentIDsForLeafRevisions keeps alive
+// for it. [winner-attachments-kept]: when the revision being written does not become the current revision and the
+// current revision stays what it was (a conflicting branch that loses), the metadata still belongs to that unchanged
+// winning leaf and must not change.
+// CANDIDATE FINDING (the clause fails on the real code): storeOldBodyInRevTreeAndUpdateCurrent executes
+// `doc.SetAttachments(newDoc.Attachments())` unconditionally. Winner 2-b with attachment x.txt, then the losing
+// conflict 2-a (same parent, no attachments): the stored metadata becomes {} although 2-b is still the winning leaf,
+// and -- with cross-cluster versioning off -- updateAndReturnDoc deletes the attachment body as obsolete (it is in the
+// pre-write leaf set and not in the post-write one). Demonstration (confirmed on the real code):
+// /verif/findings/C14_losing_conflict_attachment_test.go. The clause is proved when the assignment is guarded by
+// `doc.GetRevTreeID() == newRevID` (checked in a scratch copy; not proposed as the fix -- a losing revision then needs
+// its own attachments stamped into its stored body).
+
+// Document.setRevisionBody is TRUSTED (thin frame contract): for the current revision it assigns doc._body/_rawBody
+// from newDoc; otherwise it marshals newDoc's body (Document.BodyBytes caches it in newDoc._rawBody) and files it in
+// the tree node of revid (RevTree.setRevisionBody: info.Body, info.BodyKey, info.HasAttachments), noting an over-long
+// body in doc.addedRevisionBodies. It does not touch the attachment metadata of either document.
+//@ func Document.setRevisionBody
+//@   trusted
+//@   modifies doc._body, doc._rawBody, newDoc._rawBody, doc.addedRevisionBodies, elems(doc.addedRevisionBodies), RevInfo.Body, RevInfo.BodyKey, RevInfo.HasAttachments
+
+//@ func DatabaseCollectionWithUser.storeOldBodyInRevTreeAndUpdateCurrent
+//@   requires db != nil && doc != nil && newDoc != nil && doc != newDoc
+//@   modifies *
+//@   ensures[winner-attachments-kept] old(doc.SyncData.GetRevTreeID()) == prevCurrentRev && prevCurrentRev != newRevID ==> doc.Attachments() == old(doc.Attachments())
+
+// ---- the allow-list around the sending of a revision ----
+
+// sendRevisionWithProperties (path contract; callee contracts are not applied -- the uncontracted BLIP calls havoc
+// the heap, so the representation invariant that add/removeAllowedAttachments require cannot be carried here):
+// whenever a response is awaited (which is the case whenever the revision has attachments: awaitResponse :=
+// len(attMeta) > 0 || ...) the attachments are put on the allow-list BEFORE the rev message is handed to the sender
+// ([allowed-before-send]: a client can only learn of the digests from that message); if the message cannot be sent
+// they are taken off at once ([failed-send-removes]). After a successful send the removal happens in the response
+// handler (goroutine, sendRevisionWithProperties$1 below).
+// (Not stated: that add and remove receive the same docID / attMeta / subprotocol. They do -- the same variables are
+// passed -- but the parameters are captured by the goroutine closure, so they live in heap cells that the
+// uncontracted calls havoc: the engine cannot relate the arguments of the two calls.)
+//@ func BlipSyncContext.sendRevisionWithProperties
+//@   modifies *
+//@   only-contracts none
+//@   before[allowed-before-send] call sendBLIPMessage#1 awaitResponse ==> called(addAllowedAttachments, 1)
+//@   ensures[failed-send-removes] called(sendBLIPMessage, 1) && !callres(sendBLIPMessage, 1, 0) ==> called(removeAllowedAttachments, 1)
+
+// the response handler: whatever the peer answers (success, error, request for a full revision), the attachments
+// of the revision are taken off the allow-list once the response has arrived (a panic in between is recovered by the
+// deferred handler, which closes the whole connection and with it the allow-list).
+//@ func BlipSyncContext.sendRevisionWithProperties$1
+//@   modifies *
+//@   only-contracts none
+//@   ensures[removed] called(removeAllowedAttachments, 1)
+//@   before[same-list] call removeAllowedAttachments#1 $1 == docID && $2 == attMeta && $3 == activeSubprotocol
